@@ -2,6 +2,7 @@ import ScriggoV.Drv.Util
 import ScriggoV.Model.Faults
 import ScriggoV.Model.URLState
 import ScriggoV.Model.RegStack
+import ScriggoV.Model.CallableValue
 /-! line-protocol handler of C05 (b = 0|1, hex = lower-case hex, `-` empty):
 
   classify <hasFn b> <OpName> <neg b> <nativeCallee b> <class> <msg hex> → ok panicError|fatal|stop|passthrough
@@ -16,7 +17,14 @@ import ScriggoV.Model.RegStack
         swapStack of stack k on a stack of length <len> holding its own indexes (0 in new slots)
   stack <k> <n0> <event>…  → ok <len> <fp> <n> <halted b> <ncalls> | err <fault> <index of the event>
         event = c<f|i|m>:<off>:<m> | t:<m> | d:<off>:<bs>:<m>:<native b>:<args> | r | p | v<down b>
-              | a:<r> | n:<shift>:<k> | g:<off> -/
+              | a:<r> | n:<shift>:<k> | g:<off>
+  funcvalues → ok value:<raw|adapted> native:<raw|adapted> sites:<name>=<b>,… reads:<n> welltyped:<b>
+        what callable.Value does with Go functions, the store sites, the reads of
+        NativeFunction.function (all regenerated) and whether the full statement holds of them
+  valuetype <s|n|r|v> <ins> → ok <storable b> <hasEnv b> <visible ins>
+        s a Scriggo function, n a native function, r a native function with a receiver (method
+        expression), v a bound Go value (method value); ins = parameters, e the environment, o
+        another type, `-` none -/
 namespace ScriggoV.Drv.C05
 open ScriggoV ScriggoV.Gen.ConvertPanic
 
@@ -144,7 +152,40 @@ def swapLine (k len a b bs : Nat) : String :=
     | .error f => "err " ++ f.name
     | .ok (a', b', regs') => s!"ok {len'} {a'} {b'} {",".intercalate (regs'.map toString)}"
 
+/-! ### function values -/
+open CallableValue in
+def insOf (s : String) : Option (List CallableValue.Ty) :=
+  if s == "-" then some [] else
+  (mapM? (fun (p : Nat × Char) => if p.2 == 'e' then some Ty.env else if p.2 == 'o' then some (Ty.other p.1) else none)
+    (s.toList.zipIdx.map fun (c, i) => (i, c)))
+
+open CallableValue in
+def insStr (l : List CallableValue.Ty) : String :=
+  if l.isEmpty then "-" else String.ofList (l.map fun | .env => 'e' | .other _ => 'o')
+
+open CallableValue in
+def callableOf (shape : String) (ins : List CallableValue.Ty) : Option Callable :=
+  match shape with
+  | "s" => some (.scriggo ins)
+  | "n" => some (.native ins false)
+  | "r" => some (.native ins true)
+  | "v" => some (.value ins)
+  | _ => none
+
+def convName : Gen.CallableValue.Conv → String
+  | .raw => "raw" | .adapted => "adapted"
+
+open Gen.CallableValue in
+def funcValuesLine : String :=
+  let sites := ",".intercalate (storeSites.map fun (n, b) => s!"{n}={b01 b}")
+  let wt : Bool := valueConv == .adapted && nativeConv == .adapted && CallableValue.sitesConvert storeSites && rawFunctionReads == 0
+  s!"ok value:{convName valueConv} native:{convName nativeConv} sites:{sites} reads:{rawFunctionReads} welltyped:{b01 wt}"
+
 def handle : List String → Option String
+  | ["funcvalues"] => some funcValuesLine
+  | ["valuetype", shape, ins] => do
+    let c ← callableOf shape (← insOf ins)
+    pure s!"ok {b01 (CallableValue.codeStorable c)} {b01 (CallableValue.hasEnv c)} {insStr (CallableValue.visible c)}"
   | ["classify", hf, op, neg, nat, cls, h] => do
     let msg ← fromHex h
     let p ← payloadOf cls msg
